@@ -1,13 +1,14 @@
 (* Extract.v (group "gids") — extraction of GidsModel to OCaml for the C17 oracle.
    Only ExtrOcamlBasic's directives are used; numbers and bytes stay inductive. *)
-(* deps: GidsModel.vo *)
+(* deps: GidsModel.vo GidsTimerModel.vo *)
 Require Extraction.
 Require Import ExtrOcamlBasic.
-From MV Require Import Bytes GidsModel.
+From MV Require Import Bytes GidsModel GidsTimerModel.
 From MV.gen Require Import GenGids.
 Extraction Language OCaml.
 Extraction "model.ml"
   b2n n2b
   pw_of_list build map_create is_member entry_need scan_buf grbuf_init uid_sentinel
   gids_create sighup begin_decide refresh_begin refresh_commit refresh
-  step exec sys_init.
+  step exec sys_init
+  gt_create gt_destroy gt_step gt_exec drive1 do_act no_hook.
